@@ -781,10 +781,18 @@ impl<DB: DatabaseRef> ParallelState<DB> {
         let mut transitions = Vec::new();
         let mut balances = Vec::new();
         for address in addresses {
-            let mut original_account = self.load_mut_cache_account(address)?;
-            let (balance, transition) = original_account.drain_balance();
-            balances.push(balance);
-            transitions.push((address, transition))
+            // As revm's `DatabaseCommitExt::drain_balances`, commit the drained account as a touched
+            // account: one that is left empty is cleared like any other touched empty account.
+            let mut account = match self.load_mut_cache_account(address)?.account.clone() {
+                Some(info) => Account::from(info),
+                None => Account::new_not_existing(revm_state::TransactionId::ZERO),
+            };
+            let balance = core::mem::take(&mut account.info.balance);
+            account.mark_touch();
+            balances.push(balance.try_into().unwrap());
+            if let Some(transition) = self.cache.apply_account_state(address, account) {
+                transitions.push((address, transition));
+            }
         }
         // append transition
         if let Some(s) = self.transition_state.as_mut() {
